@@ -1690,6 +1690,21 @@ class Convention(abc.ABC, Generic[GridKind, Index]):
         ]
         dataset = utils.extract_vars(dataset, names)
 
+        # Coordinates are kept when extracting variables.
+        # Drop any coordinates that are defined on some other grid.
+        grid_dimensions = getattr(self, 'grid_dimensions', {})
+        other_dims = {
+            dimension
+            for dimensions in grid_dimensions.values()
+            for dimension in dimensions
+        } - dims
+        # Geometry variables are the exception, if the caller asked to keep them.
+        keep = set() if drop_geometry else set(self.get_all_geometry_names())
+        dataset = dataset.drop_vars([
+            name for name, coordinate in dataset.coords.items()
+            if name not in keep and other_dims.intersection(coordinate.dims)
+        ])
+
         # Select just this point
         return dataset.isel(selector)
 
